@@ -498,6 +498,13 @@ def judge(ctx, c04, kern, plan, st_enc, sc, res, quiet=False, bodies=None):
                      "SIGHUP/SIGPIPE ignored, SIGINT/SIGTERM relayed: the helper ends by itself")
     if res["outcome"] == "ESCAPE" and not dirty and not quiet and sc.get("client") != "dead":
         ctx.disagree("a signal handler of the helper raised into firewall.main", note, res.get("crash"), "handlers return")
+    # the wait for the relayed signal above is a wall-clock wait; on a heavily loaded machine the signal can arrive
+    # after it.  The helper's own record of its os.kill calls (reported at its end) is not timing dependent: a relay
+    # that is on that record was made.
+    relayed = len([k for k in res["kills"] if k == [os.getpid(), int(signal.SIGINT)]])
+    if res["relay_missing"] and relayed >= res["relay_expected"]:
+        res["notes"].append("%d relayed signal(s) arrived after the wait (machine under load)" % res["relay_missing"])
+        res["relay_missing"] = 0
     if res["relay_missing"] and not res["killed_by"] and not quiet:
         ctx.disagree("SIGINT/SIGTERM received by the helper after GO was not relayed to the client as SIGINT", note,
                      {"expected": res["relay_expected"], "missing": res["relay_missing"], "kill_calls": res["kills"]},
